@@ -144,6 +144,18 @@ Proof.
   apply Nat.leb_le in El. rewrite map_length. split; [exact El|].
   rewrite forallb_forall in Ef. apply Forall_forall. intros i Hi.
   apply in_map_iff in Hi as (z & <- & Hz). specialize (Ef z Hz).
+  apply andb_true_iff in Ef as [A B]. apply Z.leb_le in A. apply Z.ltb_lt in B.
+  assert (Hn : 0 < Z.of_nat n) by lia.
+  pose proof (Z.mod_pos_bound z (Z.of_nat n) Hn). lia.
+Qed.
+
+(* an entry below -n (or above n-1) anywhere in the list makes the cold fit fail *)
+Lemma init_check_out_of_range n k l z :
+  In z l -> (z < - Z.of_nat n \/ Z.of_nat n <= z) -> init_check n k (InitIdx l) = None.
+Proof.
+  intros Hz Hr. cbn. destruct (Nat.leb (length l) k); [|reflexivity]. cbn [andb].
+  destruct (forallb _ l) eqn:Ef; [|reflexivity].
+  rewrite forallb_forall in Ef. specialize (Ef z Hz).
   apply andb_true_iff in Ef as [A B]. apply Z.leb_le in A. apply Z.ltb_lt in B. lia.
 Qed.
 
